@@ -113,7 +113,8 @@ func (n *NameTrie[V]) Delete() {
 // DeleteIf deletes the node and its ancestors if they are empty.
 // Whether empty or not is defined by a given function.
 func (n *NameTrie[V]) DeleteIf(pred func(V) bool) {
-	if !pred(n.val) {
+	if !pred(n.val) || len(n.chd) > 0 {
+		// A node that still has children is an interior node of the trie and must stay.
 		return
 	}
 	if n.par != nil {
